@@ -1,0 +1,31 @@
+//go:build verif
+
+package snes
+
+import (
+	"fmt"
+	"sort"
+)
+
+// VerifSharedStateDigest hashes the package-level variables of this package:
+// the RegionNames table and the identity of the shared always-failing
+// reader/writer. Verification hook: compiled only with -tags verif.
+func VerifSharedStateDigest() uint64 {
+	h := uint64(1469598103934665603)
+	mix := func(s string) {
+		for i := 0; i < len(s); i++ {
+			h ^= uint64(s[i])
+			h *= 1099511628211
+		}
+	}
+	keys := make([]int, 0, len(RegionNames))
+	for k := range RegionNames {
+		keys = append(keys, int(k))
+	}
+	sort.Ints(keys)
+	for _, k := range keys {
+		mix(fmt.Sprintf("%d=%s;", k, RegionNames[Region(k)]))
+	}
+	mix(fmt.Sprintf("%p", alwaysErrorInstance))
+	return h
+}
